@@ -163,13 +163,13 @@ def check(world, tier):
             a.ob(False, "removal-elsewhere %s in %s" % (base_name(e), short(e.body)), "%s is called in %s (%s)" % (base_name(e), short(e.body), e.region), e.loc)
     # ---------------------------------------------------------------- b, c by composition
     from . import C02, C07
-    r2 = C02.check(world, tier)
+    r2 = run_rule(C02, world, tier)
     for cl in r2.clauses:
         if cl.id in ("C02.a", "C02.b"):
             for f_ in cl.findings:
                 (b if True else c).ob(False, "via " + f_.key, f_.msg, f_.site)
             b.ob(not cl.findings, "prefix via %s" % cl.id, "", sample={cl.id: "%d/%d" % (cl.discharged, cl.obligations)})
-    r7 = C07.check(world, tier)
+    r7 = run_rule(C07, world, tier)
     for cl in r7.clauses:
         if cl.id in ("C07.a", "C07.b"):
             for f_ in cl.findings:
@@ -202,4 +202,9 @@ def check(world, tier):
              "the failed worker removes its target path unconditionally and uploads are written in place: when a WRQ is accepted twice for one name "
              "(a retransmitted request), the worker that times out later deletes the upload the other one completed", e.loc,
              sample={"remove_file guarded by supersession test": shared_guard, "publish by rename": bool(renames)})
+    # the guard that keeps a later accepted upload from sharing its path with an earlier one is the no-overwrite refusal
+    from . import C06
+    g13 = rep.clause("C13.e", "a second upload of an existing name is refused unless overwrite is enabled (shared with C06)")
+    import_clause(world, tier, g13, C06, "C06.policy", ("",), "policy gate")
+    import_clause(world, tier, g13, C06, "C06.refusals", ("",), "refusal of existing names")
     return rep
